@@ -56,6 +56,82 @@ def run_case(desc):
     return len(oc.ALL_BACKENDS), viols, (nsub, nnz)
 
 
+def conformance_case(arg):
+    """Compile Fex/Jac/EvalRates of one network for dense, sparse and rosenbrock4 with ASan/UBSan and
+    exactly-sized heap buffers, run them on two abundance vectors, and compare every value with
+    E4's evaluation of the same text (binds the reader to the real compiler)."""
+    desc, seed = arg
+    import random
+
+    from ..ctext import poly as P
+    from ..harness import oderun as OR
+    from ..harness.render import render, reset_globals, quiet
+
+    reset_globals()
+    label = oc.case_label(desc)
+    viols = []
+    nvals = 0
+    rng = random.Random(seed * 7919 + hash(repr(sorted(label.items()))) % 100003)
+    try:
+        with quiet():
+            net = oc.build_network(desc)
+    except Exception:
+        return 0, []
+    for backend in ("dense", "sparse", "rosenbrock4"):
+        try:
+            files = render(net, backend, OR.TEMPLATES_ODEINT if backend == "rosenbrock4" else OR.TEMPLATES_CVODE)
+            ot = read_ode(files, backend)
+        except Exception as e:
+            continue  # judged by the text checks above
+        neq = ot.neq
+        yvals = [[rng.uniform(0.5, 2.0) for _ in range(neq)] for _ in range(2)]
+        params = {"nH": 1e4, "Tgas": 50.0, "zeta": 1.3e-17, "Av": 1.0, "omega": 0.5, "mu": 1.3, "gamma": 1.6}
+        res = OR.build_and_run(files, backend, yvals, params)
+        if "error" in res:
+            if res["error"] == "runtime":
+                viols.append((f"C03:sanitizer:{backend}", f"{backend}: compiled Fex/Jac trips the sanitizer: {res['detail']}", dict(label, backend=backend)))
+            else:
+                viols.append((f"C03:conformance-compile:{backend}", f"{backend}: {res['detail'][:300]}", dict(label, backend=backend)))
+            continue
+        for yv, r in zip(yvals, res["runs"]):
+            def val(sym):
+                if sym.startswith("y:"):
+                    return yv[int(sym[2:])]
+                if sym.startswith("k:"):
+                    return r["k"][int(sym[2:])]
+                raise KeyError(sym)
+
+            thermal = any(s.startswith(("kc:", "kh:")) or s in ("gamma", "kerg", "npar") for p in ot.ydot.values() for s in P.symbols(p))
+            if thermal:
+                continue  # kc/npar are not observable through this driver; the thermal row is judged on text
+            for sl, p in ot.ydot.items():
+                exp = float(sum(float(c) * _prod(m, val) for m, c in p.items()))
+                got = r["ydot"][sl]
+                nvals += 1
+                if abs(got - exp) > 1e-9 * max(1.0, abs(exp)):
+                    raise HarnessError(f"E4 disagrees with the compiled Fex on {label} [{backend}] slot {sl}: {got} vs {exp}")
+            for (rr, cc), p in ot.jac.items():
+                if rr == "?":
+                    continue
+                exp = float(sum(float(c) * _prod(m, val) for m, c in p.items()))
+                got = r["jac"].get((rr, cc), 0.0)
+                nvals += 1
+                if abs(got - exp) > 1e-9 * max(1.0, abs(exp)):
+                    raise HarnessError(f"E4 disagrees with the compiled Jac on {label} [{backend}] entry {(rr, cc)}: {got} vs {exp}")
+            if r["csr"] is not None:
+                rp, cv, dv = r["csr"]
+                if rp != ot.rowptrs or cv != ot.colvals:
+                    raise HarnessError(f"E4 CSR layout disagrees with the compiled Jac on {label}")
+    return nvals, viols
+
+
+def _prod(mono, val):
+    out = 1.0
+    for s, e in mono:
+        out *= val(s) ** e
+    return out
+
+
 def run(ctx):
     allc = list(cases(ctx.tier))
     seen = set()
@@ -73,6 +149,14 @@ def run(ctx):
         nontriv += int(nnz > 0)
         shapes.add(nnz)
         ctx.absorb(viols)
+    # conformance + sanitizer pass on a seed-chosen slice (the enumeration above never depends on the seed)
+    step = 97 if ctx.tier == "quick" else 23
+    off = ctx.seed % step
+    sub = [d for i, d in enumerate(uniq) if i % step == off and d.get("reactions")]
+    nconf = 0
+    for nv, viols in ctx.pmap(conformance_case, [(d, ctx.seed) for d in sub]):
+        nconf += nv
+        ctx.absorb(viols)
     ctx.assumptions += [
         "bounds are judged against the sizes the generated headers declare (NEQUATIONS, NREACTIONS, NNZ, NHEATPROCS, NCOOLPROCS) as evaluated from the rendered naunet_macros.h",
         "every subscript in Fex/Jac text of all four back-ends is a compile-time constant (checked: a non-constant subscript outside the two copy loops is a harness error)",
@@ -85,6 +169,8 @@ def run(ctx):
         "networks": len(uniq),
         "subscripts_checked": nsub,
         "distinct_nnz_values": len(shapes),
+        "conformance_networks_compiled_with_asan_ubsan": len(sub),
+        "values_where_compiled_code_equals_E4": nconf,
         "exhaustive": True,
     }
 
